@@ -72,7 +72,8 @@ def run(spec):
   if lib_only:
     det['scale_decreases'] = None
   if post is not None:
-    det['scale_decreases'] = bool((np.diff(post.scale) < 0).any())
+    # "decreases" includes "stays level": s_t == s_{t-1} makes the differenced quantiles equal to the estimate up to rounding
+    det['scale_decreases'] = bool((np.diff(post.scale) <= 1e-9 * post.scale[:-1]).any())
     if det['scale_decreases']:
       cls.append('posterior-scale-decreases')
   dates3 = [d for d, k in zip(truth['dates'], in3) if k]
@@ -96,6 +97,13 @@ def run(spec):
     ts = m.estimate_pointwise_and_cumulative_effect(metric=metric, level=spec['level'], tails=spec['tails'])
   except Exception as e:  # pylint: disable=broad-except
     kind = core.crash_kind('C18', e)
+    if lib_only:
+      # constant control series: no closed form; F12's predicate is evaluated on the library's own posterior scale
+      try:
+        sc_l = np.asarray((m.tbr_cost if metric == 'tbr_cost' else m.tbr_response).causal_cumulative_distribution().kwds['scale'], float)
+        det['scale_decreases'] = bool((np.diff(sc_l) <= 1e-9 * sc_l[:-1]).any())
+      except Exception:  # pylint: disable=broad-except
+        pass
     return {'viol': [(kind, dict(det, exc=str(e)[:200]))], 'nt': True, 'cls': cls + ['raised'], 'dc': 0}
   try:
     cf, pw, cu = ts.counterfactual, ts.pointwise_difference, ts.cumulative_effect
